@@ -205,6 +205,8 @@ def run(ck, F):
     rule_merge_keeps_components(ck, F)
     rule_every_schema_read(ck, F)
     rule_imports_followed(ck, F)
+    from rules import c11 as C11
+    C11.rule_every_import_followed(ck, F, rule="R5")
     rule_naming(ck, F, X)
 
 
@@ -275,7 +277,26 @@ def oracle(tag, a):
     return "bare", False
 
 
+OCCURRENCE_VOCABULARY = {"minOccurs", "maxOccurs", "use", "ref", "name"}
+
+
+def _attribute_names(nf, acc=None):
+    """names of the attributes a value depends on: literal second arguments of `attribute(..)` / `has_attribute(..)` calls"""
+    acc = set() if acc is None else acc
+    if isinstance(nf, tuple):
+        if nf and nf[0] == "call" and str(nf[1]).rsplit("::", 1)[-1] in ("attribute", "has_attribute", "attribute_node") and len(nf) > 2 and len(nf[2]) == 2 \
+                and isinstance(nf[2][1], tuple) and nf[2][1][0] == "lit" and isinstance(nf[2][1][1], str):
+            acc.add(nf[2][1][1])
+        for x in nf:
+            _attribute_names(x, acc)
+    elif isinstance(nf, (list, dict)):
+        for x in (nf.values() if isinstance(nf, dict) else nf):
+            _attribute_names(x, acc)
+    return acc
+
+
 def rule_occurrence(ck, F, X):
+    n_foreign = 0
     CE = og.CallExpander(F)
     CEM = og.CallExpander(F, general_matches=True)
     live = scans.api_reachable(F.lib)
@@ -337,6 +358,14 @@ def rule_occurrence(ck, F, X):
         if len(flags) != 3:
             ck.undecided("R2", f"{label}:flags", site, "constructor site without explicit occurrence flags")
             continue
+        # how often a member occurs is said by minOccurs / maxOccurs / use (and by what it stands in) and by nothing else: the table
+        # below varies those; a flag that also reads another attribute (nillable, default, form ..) is outside it
+        for k_, v_ in sorted(flags.items()):
+            for an in sorted(_attribute_names(v_) - OCCURRENCE_VOCABULARY):
+                n_foreign += 1
+                ck.violation("R2", f"{label}:{k_}-depends-on:{an}", site,
+                             f"`{k_}` of a {label} member depends on the attribute `{an}`, which says nothing about how often the member occurs: "
+                             f"a required member (minOccurs >= 1) is typed Option / Vec or an optional one bare, depending on `{an}`", fn="Field::try_from_node")
         tags = ["any"] if label == "any" else ["element", "attribute"]
         for tag in tags:
             for a in fde.product({"min": MIN, "max": MAX, "use": USE, "pmin": MIN, "pmax": MAX, "ptag": PTAG}):
